@@ -216,5 +216,165 @@ theorem java_eqi_c_CS_FluorShell (m : Int) (hm : inI32 m) (hN : inI32 (T.NE_Phot
   jeqi_auto
 end jumpsL
 
+/-- no gap in the chain of L edges of element `Z` (W7): when the L2 (L3) edge is missing, the L1 (L1 and L2) edges are missing too -/
+structure LGaps (T : Tables ℝ) (Z : Int) : Prop where
+  g21 : ∀ x, JGen.EdgeEnergy (JTables.ofC T) Z 2 = .error (.iae x) → JGen.EdgeEnergy_catch (JTables.ofC T) Z 1 = .ok 0
+  g31 : ∀ x, JGen.EdgeEnergy (JTables.ofC T) Z 3 = .error (.iae x) → JGen.EdgeEnergy_catch (JTables.ofC T) Z 1 = .ok 0
+  g32 : ∀ x, JGen.EdgeEnergy (JTables.ofC T) Z 3 = .error (.iae x) → JGen.EdgeEnergy_catch (JTables.ofC T) Z 2 = .ok 0
+
+section fluorline
+variable (T : Tables ℝ) (Z : Int) (hZ : inI32 Z) (m : Int) (hm : inI32 m) (E : ℝ) (s : Slot) (hs : s.isFull = false)
+include hZ
+
+theorem java_nz_RadRate (hm : inI32 m) : JNz (JGen.RadRate (JTables.ofC T) Z m) := by
+  unfold JGen.RadRate FUEL
+  jeq_startJ JGen.RadRate_fuel
+  by_cases hz : Z < 1 ∨ Z > 120
+  · jnz_auto
+  by_cases h1 : m = 1
+  · subst h1
+    jeq_simp
+    unfold JGen.RadRate_fuel
+    simp only [jloopM_3]
+    jeq_normJ
+    jnz_auto
+    all_goals (apply JNz.of_ne; intro h; rename_i h1; apply h1; linarith)
+  · simp only [jloopM_3]
+    jnz_auto
+end fluorline
+
+section fluorline2
+variable (T : Tables ℝ) (Z : Int) (hZ : inI32 Z) (m : Int) (hm : inI32 m) (E : ℝ) (s : Slot) (hs : s.isFull = false)
+include hZ
+
+theorem catch_Jump_from_L1 : JCatchRel (JGen.Jump_from_L1_catch (JTables.ofC T) Z E) (Gen.Jump_from_L1 T Z E Slot.null) := by
+  unfold JGen.Jump_from_L1_catch
+  have h := jump_L1_rel T Z hZ E Slot.null rfl
+  simp only [jthrow_eq_error, jpure_eq_ok] at h
+  exact JCatchRel.of_guard h
+theorem catch_Jump_from_L2 (hg : LGaps T Z) : JCatchRel (JGen.Jump_from_L2_catch (JTables.ofC T) Z E) (Gen.Jump_from_L2 T Z E Slot.null) := by
+  unfold JGen.Jump_from_L2_catch
+  have h := jump_L2_rel T Z hZ E Slot.null rfl hg.g21
+  simp only [jthrow_eq_error, jpure_eq_ok] at h
+  exact JCatchRel.of_guard h
+theorem catch_Jump_from_L3 (hg : LGaps T Z) : JCatchRel (JGen.Jump_from_L3_catch (JTables.ofC T) Z E) (Gen.Jump_from_L3 T Z E Slot.null) := by
+  unfold JGen.Jump_from_L3_catch
+  have h := jump_L3_rel T Z hZ E Slot.null rfl hg.g31 hg.g32
+  simp only [jthrow_eq_error, jpure_eq_ok] at h
+  exact JCatchRel.of_guard h
+
+include hm hs
+theorem java_eqi_c_CS_FluorLine (hN : inI32 (T.NE_Photo Z.toNat)) (hg : LGaps T Z) :
+    JRelI (JGen.CS_FluorLine (JTables.ofC T) Z m E) (Gen.CS_FluorLine T Z m E s) s := by
+  have hsh := fun k hk => java_eqi_c_CS_FluorShell T Z hZ E s hs k hk hN hg.g21 hg.g31 hg.g32
+  jeq_start JGen.CS_FluorLine Gen.CS_FluorLine
+  by_cases hK : m ≥ -29 ∧ m ≤ 1
+  · simp only [hK, and_self, ↓reduceIte]
+    jeqi_use_nz (java_eq_c_RadRate T Z m hZ hm s hs).toI, (java_nz_RadRate T Z hZ m hm)
+    jeq_simp
+    jeqi_use (hsh 0 (by decide))
+    jeqi_auto
+  simp only [hK, ↓reduceIte]
+  by_cases hL : (m ≤ -30 ∧ m ≥ -113) ∨ m = 2
+  · simp only [hL, ↓reduceIte]
+    jeqi_use_nz (java_eq_c_RadRate T Z m hZ hm s hs).toI, (java_nz_RadRate T Z hZ m hm)
+    jeq_simp
+    by_cases h1 : m ≥ -58 ∧ m ≤ -30
+    · simp only [h1, and_self, ↓reduceIte]
+      jeqi_use (hsh 1 (by decide))
+      jeqi_auto
+    simp only [h1, ↓reduceIte]
+    by_cases h2 : m ≥ -85 ∧ m ≤ -59
+    · simp only [h2, and_self, ↓reduceIte]
+      jeqi_use (hsh 2 (by decide))
+      jeqi_auto
+    simp only [h2, ↓reduceIte]
+    have h3 : m ≤ -86 ∨ m = 2 := by omega
+    simp only [h3, ↓reduceIte]
+    jeqi_use (hsh 3 (by decide))
+    jeqi_auto
+  simp only [hL, ↓reduceIte]
+  by_cases h3 : m = 3
+  · subst h3
+    simp only [↓reduceIte]
+    jeq_catch (catchT_RadRate T Z (-63) hZ (by decide))
+    jeq_catch (catchT_RadRate T Z (-62) hZ (by decide))
+    jeq_catch (catchT_RadRate T Z (-95) hZ (by decide))
+    jeq_catch (catchT_RadRate T Z (-101) hZ (by decide))
+    jeq_catch (catchT_RadRate T Z (-103) hZ (by decide))
+    jeq_catch (catchT_RadRate T Z (-102) hZ (by decide))
+    jeq_catch (catchT_RadRate T Z (-91) hZ (by decide))
+    jeq_catch (catchT_RadRate T Z (-98) hZ (by decide))
+    jeq_catch (catchT_RadRate T Z (-96) hZ (by decide))
+    jeq_catch (catchT_RadRate T Z (-97) hZ (by decide))
+    jeq_catch (catchT_RadRate T Z (-94) hZ (by decide))
+    jeq_catch (catchT_RadRate T Z (-34) hZ (by decide))
+    jeq_catch (catchT_RadRate T Z (-33) hZ (by decide))
+    jeq_catch (catchT_RadRate T Z (-36) hZ (by decide))
+    jeq_catch (catchT_RadRate T Z (-35) hZ (by decide))
+    jeqi_use_catch (catch_Jump_from_L2 T Z hZ E hg)
+    jeqi_use_catch (catch_Jump_from_L3 T Z hZ E hg)
+    jeqi_use_catch (catch_Jump_from_L1 T Z hZ E)
+    jeq_simp
+    split_ifs
+    · jeqi_auto
+    · jeqi_use_pos (java_eq_c_CS_Photo T Z hZ E s hs hN).toI, (java_pos_CS_Photo T Z hZ E)
+      jeqi_auto
+  · jeqi_auto
+
+omit hm hs in
+theorem java_oor_RadRate (hz : Z < 1 ∨ Z > 120) : JGen.RadRate (JTables.ofC T) Z m = .error (.iae "Z out of range") := by
+  unfold JGen.RadRate FUEL JGen.RadRate_fuel
+  jeq_normJ
+  simp only [hz, ↓reduceIte, jthrow_eq_error]
+omit hm hs in
+theorem java_oor_CS_Photo (hz : Z < 1 ∨ Z > 120) : JGen.CS_Photo (JTables.ofC T) Z E = .error (.iae "Z out of range") := by
+  unfold JGen.CS_Photo JGen.CS_Factory
+  jeq_normJ
+  simp only [hz, ↓reduceIte, jpure_eq_ok, jbind_ok, jthrow_eq_error, jbind_error]
+omit hs in
+/-- a value of the Java `CS_FluorLine` means `Z` is an element -/
+theorem java_rng_CS_FluorLine {v : ℝ} (h : JGen.CS_FluorLine (JTables.ofC T) Z m E = .ok v) : ¬(Z < 1 ∨ Z > 120) := by
+  intro hz
+  unfold JGen.CS_FluorLine at h
+  simp only [java_oor_RadRate T Z hZ m hz, java_oor_CS_Photo T Z hZ E hz, jbind_error, jthrow_eq_error] at h
+  split_ifs at h <;> first | cases h | skip
+  revert h
+  suffices hnv : JNoVal (β := ℝ) _ from hnv v
+  jnoval_struct
+
+omit hs in
+theorem java_rng_CS_FluorShell {v : ℝ} (h : JGen.CS_FluorShell (JTables.ofC T) Z m E = .ok v) : ¬(Z < 1 ∨ Z > 120) := by
+  intro hz
+  unfold JGen.CS_FluorShell at h
+  jeq_normJ
+  simp only [hz, ↓reduceIte, jthrow_eq_error] at h
+  cases h
+
+theorem java_eqi_c_CSb_FluorLine (hN : inI32 (T.NE_Photo Z.toNat)) (hg : LGaps T Z)
+    (haw : ∀ v, JGen.CS_FluorLine (JTables.ofC T) Z m E = .ok v → 0 < T.AtomicWeight_arr Z.toNat) :
+    JRelI (JGen.CSb_FluorLine (JTables.ofC T) Z m E) (Gen.CSb_FluorLine T Z m E s) s := by
+  jeq_start JGen.CSb_FluorLine Gen.CSb_FluorLine Gen.AtomicWeight
+  rcases (java_eqi_c_CS_FluorLine T Z hZ m hm E s hs hN hg).cases with ⟨v, hc, hj⟩ | ⟨e, x, hc, hj⟩ | ⟨a, b, hc, hj⟩ | ⟨a, hc⟩
+  · have h0 := haw _ hj
+    have hr := java_rng_CS_FluorLine T Z hZ m hm E hj
+    jeqi_auto
+  · jeqi_auto
+  · jeqi_auto
+  · jeqi_auto
+
+theorem java_eqi_c_CSb_FluorShell (hN : inI32 (T.NE_Photo Z.toNat)) (hg : LGaps T Z)
+    (haw : ∀ v, JGen.CS_FluorShell (JTables.ofC T) Z m E = .ok v → 0 < T.AtomicWeight_arr Z.toNat) :
+    JRelI (JGen.CSb_FluorShell (JTables.ofC T) Z m E) (Gen.CSb_FluorShell T Z m E s) s := by
+  jeq_start JGen.CSb_FluorShell Gen.CSb_FluorShell Gen.AtomicWeight
+  rcases (java_eqi_c_CS_FluorShell T Z hZ E s hs m hm hN hg.g21 hg.g31 hg.g32).cases with ⟨v, hc, hj⟩ | ⟨e, x, hc, hj⟩ | ⟨a, b, hc, hj⟩ | ⟨a, hc⟩
+  · have h0 := haw _ hj
+    have hr := java_rng_CS_FluorShell T Z hZ m hm E hj
+    jeqi_auto
+  · jeqi_auto
+  · jeqi_auto
+  · jeqi_auto
+end fluorline2
+
 end C19
 end Xrl
